@@ -191,6 +191,13 @@ Proof.
   rewrite (H x (or_introl eq_refl)). apply IH. intros t Ht. apply H. right; exact Ht.
 Qed.
 
+Lemma fold_left_ext_in {T S} (f g : S -> T -> S) l v :
+  (forall t, In t l -> forall v, f v t = g v t) -> fold_left f l v = fold_left g l v.
+Proof.
+  revert v; induction l as [|x l IH]; intros v H; cbn [fold_left]; [reflexivity|].
+  rewrite (H x (or_introl eq_refl)). apply IH. intros t Ht. apply H. right; exact Ht.
+Qed.
+
 (* ---- pointwise ("local") output transformers ---- *)
 Definition PW (F : omat K -> omat K) (f : option K -> option K) (i j : N) : Prop :=
   forall o, F o i j = f (o i j).
